@@ -27,7 +27,7 @@ for p in props:
         na.append({'property_id': pid, 'reason': NA.get(pid, 'check not built yet in this round (model and theorems pending); see DESIGN.md section 4')})
 man = {
     'version': 1,
-    'setup_cmd': 'cd /verif && /venv/bin/python harness/regen.py && cd /verif/coq && coq_makefile -f _CoqProject -o Makefile && timeout 3400 make -j16',
+    'setup_cmd': 'cd /verif && /venv/bin/python harness/setup.py',
     'hooks': {'guard': 'PYG_BASE_VERIF', 'enable': 'no source hooks are needed; checks set PYG_BASE_VERIF=1 and PYTHONPATH=/repo/src when running the implementation',
               'baseline_off_cmd': 'cd /repo && /venv/bin/python -m pytest -ra -q -p no:cacheprovider --timeout=900 --continue-on-collection-errors',
               'source_commits': [], 'add_only': True},
